@@ -3,7 +3,7 @@
 From Coq Require Import List NArith Bool Sorted Lia Arith.
 From RV Require Import Base.SortedMap Base.SortedMapP Btree.Tree Btree.TreeP Btree.Read Btree.ReadP
   Btree.Mutator Btree.MutatorP Btree.DeleteP Btree.Scan Btree.ScanTree Btree.ScanTreeP Btree.SpliceP
-  Btree.SpliceTreeP Btree.ScanP.
+  Btree.RangeMut Btree.SpliceTreeP Btree.ScanP.
 Import ListNotations.
 
 Section RetainTreeP.
@@ -134,5 +134,31 @@ Section RetainTreeP.
                   ltac:(unfold ScanP.contents; lia)) as H.
     cbn zeta in H. destruct H as [H1 H2]. split; [exact H1|].
     rewrite <- !(contents_abs). exact H2.
+  Qed.
+
+  (* extract_if / extract_from_if consumed from the front: n calls of next(), then the iterator is dropped *)
+  Variable entry_eqb : K * V -> K * V -> bool.
+  Definition t_nexts (lo hi : bound K) (p : K -> V -> bool) :=
+    ScanP.nexts cmp (@bt_leaves K V) t_seek t_flush t_splice (@t_has_parent K V) (@t_more_children K V)
+      (t_underfilling ksize vsize fixed_k fixed_v page_size) (t_packs ksize vsize fixed_k fixed_v page_size)
+      entry_eqb p (fun bt => S (length (concat (bt_leaves bt)))) 4.
+
+  Theorem t_extract_forward_refines (bt : @btree K V) lo hi p n : ok bt ->
+    let '(os, x) := t_nexts lo hi p n (t_extract_new bt lo hi) in
+    let '(os', st) := ext_run p (repeat true n) (ext_begin cmp (abs_tree bt) lo hi) in
+    os = os' /\
+    ok (t_extract_close cmp ksize vsize fixed_k fixed_v page_size sep entry_eqb x) /\
+    abs_tree (t_extract_close cmp ksize vsize fixed_k fixed_v page_size sep entry_eqb x) = ext_finish st.
+  Proof.
+    intros Hi. unfold t_nexts, t_extract_new, t_extract_close.
+    pose proof (extract_forward_ok cmp laws (@bt_leaves K V) t_seek t_flush t_splice (@t_has_parent K V) (@t_more_children K V)
+                  (t_underfilling ksize vsize fixed_k fixed_v page_size) (t_packs ksize vsize fixed_k fixed_v page_size)
+                  ok t_ok_leaves t_seek_ok t_flush_ok t_splice_ok t_more_next
+                  ltac:(intros; reflexivity) entry_eqb lo hi p (fun bt => S (length (concat (bt_leaves bt))))
+                  ltac:(intros; unfold ScanP.contents; lia) 4 ltac:(lia) bt n Hi) as H.
+    unfold ScanP.contents in H. rewrite <- (contents_abs bt). unfold ScanTreeP.contents.
+    destruct (ScanP.nexts _ _ _ _ _ _ _ _ _ _ _ _ _ n _) as [os x].
+    destruct (ext_run p (repeat true n) _) as [os' st]. destruct H as (H1 & H2 & H3).
+    split; [exact H1|]. split; [exact H2|]. rewrite <- contents_abs. exact H3.
   Qed.
 End RetainTreeP.
